@@ -2,6 +2,7 @@ package main
 
 import (
 	"bytes"
+	"errors"
 	"fmt"
 	gofs "io/fs"
 	"sort"
@@ -281,6 +282,7 @@ func runC06(r *Rng, n int, replay string) {
 	defer runC06Faults(100000)
 	defer runC06XFault(200000)
 	defer runC06Modes(300000)
+	defer runC06Bare(500000)
 	cands := candidatePaths(nsNames, 4)
 	for id := 0; id < n; id++ {
 		w := buildMountWorld(r)
@@ -684,6 +686,123 @@ func runC06Modes(idBase int) {
 				}
 				emit(c)
 			}
+		}
+	}
+}
+
+// runC06Bare: "its result is what the same operation yields when applied there directly" also when the mounted file
+// system fails with an error value that is neither a *PathError nor a *LinkError (a custom FS may return anything):
+// the k-th primitive call of the mounted FS fails with a bare error; the same operation is applied through the mount
+// and directly to an identical FS with the same failure, and the two results must agree on success/failure and on
+// matching the injected error.
+func runC06Bare(idBase int) {
+	id := idBase
+	type bop struct {
+		name string
+		run  func(fs hackpadfs.FS, pre string) error
+	}
+	ops := []bop{
+		{"Open(x)", func(fs hackpadfs.FS, pre string) error {
+			f, err := fs.Open(pre + "x")
+			if err == nil && f == nil {
+				return fmt.Errorf("nil file and nil error")
+			}
+			if err == nil {
+				_ = f.Close()
+			}
+			return err
+		}},
+		{"OpenFile(x)", func(fs hackpadfs.FS, pre string) error {
+			f, err := hackpadfs.OpenFile(fs, pre+"x", hackpadfs.FlagReadWrite, 0)
+			if err == nil && f == nil {
+				return fmt.Errorf("nil file and nil error")
+			}
+			if err == nil {
+				_ = f.Close()
+			}
+			return err
+		}},
+		{"Stat(x)", func(fs hackpadfs.FS, pre string) error { _, err := hackpadfs.Stat(fs, pre+"x"); return err }},
+		{"Mkdir(n)", func(fs hackpadfs.FS, pre string) error { return hackpadfs.Mkdir(fs, pre+"n", 0o755) }},
+		{"MkdirAll(n/m)", func(fs hackpadfs.FS, pre string) error { return hackpadfs.MkdirAll(fs, pre+"n/m", 0o755) }},
+		{"Remove(x)", func(fs hackpadfs.FS, pre string) error { return hackpadfs.Remove(fs, pre+"x") }},
+		{"Rename(x, w)", func(fs hackpadfs.FS, pre string) error { return hackpadfs.Rename(fs, pre+"x", pre+"w") }},
+		{"Chmod(x)", func(fs hackpadfs.FS, pre string) error { return hackpadfs.Chmod(fs, pre+"x", 0o600) }},
+		{"ReadFile(x)", func(fs hackpadfs.FS, pre string) error { _, err := hackpadfs.ReadFile(fs, pre+"x"); return err }},
+		{"ReadDir(z)", func(fs hackpadfs.FS, pre string) error { _, err := hackpadfs.ReadDir(fs, pre+"z"); return err }},
+		{"WriteFullFile(v)", func(fs hackpadfs.FS, pre string) error {
+			return hackpadfs.WriteFullFile(fs, pre+"v", []byte("abc"), 0o644)
+		}},
+	}
+	fill := func() hackpadfs.FS {
+		a := newMem()
+		_ = hackpadfs.WriteFullFile(a, "x", []byte("hello"), 0o644)
+		_ = hackpadfs.Mkdir(a, "z", 0o755)
+		_ = hackpadfs.WriteFullFile(a, "z/k", []byte("k"), 0o644)
+		return a
+	}
+	class := func(err error) string {
+		switch {
+		case err == nil:
+			return "ok"
+		case errors.Is(err, errInjected):
+			return "injected"
+		default:
+			return "other-error"
+		}
+	}
+	for _, op := range ops {
+		// which kinds of primitive call the operation makes, from a failure-free direct run
+		var log []string
+		n0 := 0
+		supported := true
+		func() {
+			defer func() {
+				if recover() != nil {
+					supported = false // the fault wrapper offers an interface the in-memory FS below it lacks
+				}
+			}()
+			_ = op.run(faultFull{base: fill(), calls: &n0, failAt: -1, log: &log}, "")
+		}()
+		if !supported {
+			continue
+		}
+		seen := map[string]bool{}
+		for _, l := range log {
+			prim := strings.Fields(l)[0]
+			if seen[prim] {
+				continue
+			}
+			seen[prim] = true
+			c := &Case{ID: id, Kind: "bare-error", Trivial: true}
+			id++
+			c.Cells = []string{"bare-error/" + op.name + "/" + prim}
+			nd, hd := 0, 0
+			derr := op.run(faultFull{base: fill(), calls: &nd, failAt: -1, bare: true, failOn: prim, hits: &hd}, "")
+			// through the mount (AddMount's mount-point check reads the ROOT, not the mounted FS)
+			root := newMem()
+			_ = hackpadfs.Mkdir(root, "a", 0o755)
+			m2, _ := mount.NewFS(root)
+			nm, hm := 0, 0
+			if err := m2.AddMount("a", faultFull{base: fill(), calls: &nm, failAt: -1, bare: true, failOn: prim, hits: &hm}); err != nil {
+				panic(err)
+			}
+			var merr error
+			func() {
+				defer func() {
+					if e := recover(); e != nil {
+						merr = fmt.Errorf("panic: %v", e)
+						c.fail(fmt.Sprintf("%s through the mount with every %s of the mounted FS failing panicked: %v", op.name, prim, e), "bare-error:panic")
+					}
+				}()
+				merr = op.run(m2, "a/")
+			}()
+			c.Text = []string{fmt.Sprintf("every %s of the FS mounted at a fails with a bare error: %s directly -> %v; through the mount -> %v", prim, op.name, derr, merr)}
+			if hd > 0 && hm > 0 && class(derr) != class(merr) {
+				// (compared only when the failure was actually injected in both runs)
+				c.fail(c.Text[0], "bare-error:"+op.name+":"+prim+":"+class(derr)+"-vs-"+class(merr))
+			}
+			emit(c)
 		}
 	}
 }
